@@ -77,6 +77,8 @@ type TxSpec struct {
 	Fail              bool `json:"fail,omitempty"`   // the caller's function returns an error after its operations succeeded
 	Batch             bool `json:"batch,omitempty"`  // use Db.Batch instead of Db.Update
 	Nested            bool `json:"nested,omitempty"` // run the body through a second Db.Update on the already bound context
+	// NilCtx: the caller passes no context to Db.Update (the database supplies a default one)
+	NilCtx bool `json:"nilCtx,omitempty"`
 	// SystemOutside (with System): the caller hands a system context to Db.Update / Db.Batch instead of deriving one
 	// inside the transaction function
 	SystemOutside bool `json:"systemOutside,omitempty"`
@@ -84,6 +86,10 @@ type TxSpec struct {
 	// (the application's "do this just before the commit" hook); a rejection there fails the commit
 	LastInPreCommit bool `json:"lastInPreCommit,omitempty"`
 }
+
+// UsesNilCtx reports whether the transaction is run as Db.Update(nil, ...): nothing can be registered on the context
+// before the transaction then.
+func (t TxSpec) UsesNilCtx() bool { return t.NilCtx && !t.System && !t.Batch }
 
 func (t TxSpec) String() string {
 	var parts []string
@@ -111,6 +117,9 @@ func (t TxSpec) String() string {
 	}
 	if t.LastInPreCommit {
 		flags += " [last operation issued from a pre-commit action]"
+	}
+	if t.NilCtx {
+		flags += " [Db.Update(nil, ...)]"
 	}
 	return "tx{" + strings.Join(parts, "; ") + "}" + flags
 }
@@ -454,13 +463,16 @@ func RunTxHooks(w *World, m *Model, tx TxSpec, beforeTx func(ctx boltz.MutateCon
 	if tx.System && tx.SystemOutside {
 		topCtx = topCtx.GetSystemContext()
 	}
-	if beforeTx != nil {
+	if beforeTx != nil && !tx.UsesNilCtx() {
 		beforeTx(topCtx)
 	}
 	var txErr error
-	if tx.Batch {
+	switch {
+	case tx.Batch:
 		txErr = w.Z.Db.Batch(topCtx, run)
-	} else {
+	case tx.UsesNilCtx():
+		txErr = w.Z.Db.Update(nil, run)
+	default:
 		txErr = w.Z.Db.Update(topCtx, run)
 	}
 	out.Err = txErr
